@@ -1,7 +1,8 @@
 (* C11 — read-committed consumers never see aborted or control records.
    Statements only; proofs in Consumer/{TxnProofs,RunProofs,MoreProofs}.v.  Same model and runs as C03. *)
 From Coq Require Import List ZArith Sorting.Sorted.
-From SV Require Import Consumer.Parse Consumer.Log Consumer.ParseProofs Consumer.RunProofs Consumer.MoreProofs.
+From SV Require Import Consumer.Parse Consumer.Log Consumer.ParseProofs Consumer.RunProofs Consumer.MoreProofs
+  Gen.GoInt Gen.DecTypes Gen.DecTypes2 Gen.DecC11 Consumer.TieProofs.
 Import ListNotations.
 Open Scope Z_scope.
 
@@ -80,3 +81,48 @@ Theorem c11_example_log_start : wf_log cut_log /\ index_wf cut_log cut_index /\ 
   map cm_offset (visible (Build_cfg 1048576 0 true) cut_log) = [32; 34] /\ aborted_txns [(1, 20)] cut_log = cut_index.
 Proof. exact cut_example. Qed.
 Print Assumptions c11_example_log_start.
+
+(* ---- tie to the source: the definitions go/decgen regenerates from consumer.go / fetch_response.go on every check
+   (golden Gen/DecC11.v) are the model's functions *)
+
+(* the aborted-transaction consumption loop = pop_aborted: the same entries leave, their producer ids are marked *)
+Theorem c11_tie_consume_aborted : forall idx last A,
+  consume_aborted (map swap idx) last =
+  (map swap (fst (pop_aborted last idx A)), map CT_begin_aborted (popped last idx), @ExFall unit) /\
+  snd (pop_aborted last idx A) = rev (popped last idx) ++ A.
+Proof. exact tie_consume_aborted. Qed.
+Print Assumptions c11_tie_consume_aborted.
+
+(* parse_set's step for a record batch is the generated per-batch verdict: a control batch is never exposed and an abort
+   marker ends its producer's aborted range; under ReadCommitted a transactional batch of a marked producer is dropped *)
+Theorem c11_tie_batch_verdict : forall c o idx A b r,
+  parse_set c o idx A (RBatch b :: r) =
+  let '(idx1, A1) := pop_aborted (rb_first b + rb_lastdelta b) idx A in
+  let '(m, o1) := Parse.parse_records o b in
+  if rb_control b then
+    match control_type b with
+    | None => ([], o1, VCtrlErr)
+    | Some t => match snd (fst (batch_verdict ENil true ENil (iso_of c) ENil t (memZ (rb_pid b) A1) (rb_txn b))) with
+                | [CT_end_aborted] => parse_set c o1 idx1 (removeZ (rb_pid b) A1) r
+                | _ => parse_set c o1 idx1 A1 r
+                end
+    end
+  else
+    match snd (batch_verdict ENil false ENil (iso_of c) ENil 0 (memZ (rb_pid b) A1) (rb_txn b)) with
+    | ExContinue => parse_set c o1 idx1 A1 r
+    | _ => let '(ms, o2, v) := parse_set c o1 idx1 A1 r in
+           match v with VOk => (m ++ ms, o2, VOk) | _ => ([], o2, v) end
+    end.
+Proof. exact tie_parse_set_batch. Qed.
+Print Assumptions c11_tie_batch_verdict.
+
+Theorem c11_tie_batch_verdict_control_error : forall c e is_aborted is_txn t, e <> ENil ->
+  batch_verdict ENil true ENil (iso_of c) e t is_aborted is_txn = (e, [], @ExReturn (list Z * gerr) ([], e)).
+Proof. exact tie_batch_verdict_control_error. Qed.
+Print Assumptions c11_tie_batch_verdict_control_error.
+
+(* getAbortedTransactions: the model's sort_idx output is a permutation sorted for the generated comparator *)
+Theorem c11_tie_aborted_less : forall l i j,
+  StronglySorted (fun a b => aborted_less i j (snd b) (snd a) = false) (sort_idx l) /\ (forall x, In x (sort_idx l) <-> In x l).
+Proof. exact tie_sort_idx. Qed.
+Print Assumptions c11_tie_aborted_less.
